@@ -128,7 +128,8 @@ struct XCompare : Engine {
                   cJSON* a1 = LIB(cJSON_CreateArray()); cJSON* a2 = LIB(cJSON_CreateArray()); LIBV(cJSON_AddItemReferenceToArray(a1, n1)); LIBV(cJSON_AddItemReferenceToArray(a2, n2)); if (LIB(cJSON_Compare(a1, a2, cs))) V("invalid-compares-equal", "arrays holding string nodes with NULL valuestring compare equal"); LIBV(cJSON_Delete(a1)); LIBV(cJSON_Delete(a2)); }
               LIBV(cJSON_Delete(n1)); LIBV(cJSON_Delete(n2)); LIBV(cJSON_Delete(ok)); }
             // trees using every nesting level the parser accepts
-            for (int shape = 0; shape < 2; shape++) { std::string t; const int d = CJSON_NESTING_LIMIT; for (int i = 0; i < d; i++) t += shape ? "{\"k\":" : "["; t += "7"; for (int i = 0; i < d; i++) t += shape ? "}" : "]"; std::string t2 = t; t2[t2.find('7')] = '8';
+            // (objects only 16 deep: cJSON_Compare visits every object member twice per level, i.e. 2^depth work for nested objects)
+            for (int shape = 0; shape < 2; shape++) { std::string t; const int d = shape ? 16 : CJSON_NESTING_LIMIT; for (int i = 0; i < d; i++) t += shape ? "{\"k\":" : "["; t += "7"; for (int i = 0; i < d; i++) t += shape ? "}" : "]"; std::string t2 = t; t2[t2.find('7')] = '8';
                 cJSON* x = LIB(cJSON_Parse(t.c_str())); cJSON* y = LIB(cJSON_Parse(t.c_str())); cJSON* z = LIB(cJSON_Parse(t2.c_str()));
                 if (!x || !y || !z) V("deep-parse-failed", "cannot parse a text nested exactly CJSON_NESTING_LIMIT deep");
                 else for (int cs = 0; cs < 2; cs++) { if (!LIB(cJSON_Compare(x, y, cs)) || !LIB(cJSON_Compare(y, x, cs))) V("equal-values-compare-unequal", "two equal trees nested CJSON_NESTING_LIMIT deep compare unequal"); if (LIB(cJSON_Compare(x, z, cs))) V("different-values-compare-equal", "deep trees differing in the innermost leaf compare equal"); }
